@@ -1,5 +1,6 @@
 import Platypus.Proofs.ErrPosBuiltin
 import Platypus.Proofs.ErrPosStart
+import Platypus.Proofs.ErrPosCheck
 /-!
 C01 (third sentence) and C17 (run-time clause): **where a run-time error points**.
 
@@ -93,6 +94,39 @@ theorem runtime_error_position_is_token (env : Env) (fuel : Nat) (name : Bytes)
   obtain ⟨pre, p, hc, hp⟩ := (runtime_error_located env fuel name stmts w e s' h).last
   exact ⟨pre, p, hc, posOfL_stored stmts p hp⟩
 
+/-! ### load-time check errors -/
+
+/-- The check pass (v1 and v2 share it, C08): for every table of function checkers whose refusals
+    point into the refused call (`FcheckOK`), every script and all fuel, a rejection carries a
+    non-empty chain whose every link names the checked script at a position designated by the
+    script's own statements. -/
+theorem check_error_located (file : Bytes) (registered : Bytes → Bool)
+    (fcheck : CallInfo → Option (CM Unit)) (hf : FcheckOK file fcheck) (fuel : Nat) (stmts : List Node)
+    (s : CheckSt) (e : PlErr) (h : checkNodes file registered fcheck fuel stmts s = .err e) :
+    e.chain ≠ [] ∧ ∀ link ∈ e.chain, link.1 = file ∧ link.2 ∈ posOfL stmts := by
+  have := (cih_all (registered := registered) hf fuel).nodes stmts s
+  rw [h] at this
+  exact this
+
+/-- checking one node: the rejection points into that node (the offender lies inside it) -/
+theorem check_error_inside_node (file : Bytes) (registered : Bytes → Bool)
+    (fcheck : CallInfo → Option (CM Unit)) (hf : FcheckOK file fcheck) (fuel : Nat) (n : Node)
+    (s : CheckSt) (e : PlErr) (h : checkNode file registered fcheck fuel n s = .err e) :
+    e.chain ≠ [] ∧ ∀ link ∈ e.chain, link.1 = file ∧ link.2 ∈ posOf n := by
+  have := (cih_all (registered := registered) hf fuel).node n s
+  rw [h] at this
+  exact this
+
+/-- `(*Script).Check` with the registered builtins: their `*Checking` functions satisfy the
+    contract, so every load-time check error of a script is located in that script -/
+theorem builtin_check_error_located (fuel : Nat) (oracle : Bytes → Option Bytes) (fns : List Bytes)
+    (file : Bytes) (stmts : List Node) (e : PlErr) (h : checkScript fuel oracle fns file stmts = .err e) :
+    e.chain ≠ [] ∧ ∀ link ∈ e.chain, link.1 = file ∧
+      (link.2 ∈ storedOfL stmts ∨ link.2 = Pos.invalid) := by
+  unfold checkScript at h
+  obtain ⟨h1, h2⟩ := check_error_located file _ _ (builtin_fcheckOK oracle file) fuel stmts {} e h
+  exact ⟨h1, fun l hl => ⟨(h2 l hl).1, posOfL_stored stmts _ (h2 l hl).2⟩⟩
+
 /-! non-vacuity: a concrete failing run (`1 / z` with `z` undefined, in a script named `a`): the
     premise of the theorems holds, and the chain is the single link `(a, 2:1:3)`, the operator -/
 def exDiv : List Node := [.arith .div (.intLit 1 ⟨0, 1, 1⟩) (.ident [122] ⟨4, 1, 5⟩) ⟨2, 1, 3⟩]
@@ -102,5 +136,9 @@ def exEnv0 : Env :=
 
 example : ∃ e s', runScript exEnv0 5 [97] exDiv {} = .err e s' ∧ e.chain = [([97], ⟨2, 1, 3⟩)] :=
   ⟨_, _, rfl, rfl⟩
+
+/-- a concrete rejected script: a stray `break` at offset 6 -/
+example : ∃ e, checkScript 5 (fun _ => none) [] [97] [.brk ⟨6, 2, 1⟩] = .err e ∧ e.chain = [([97], ⟨6, 2, 1⟩)] :=
+  ⟨_, rfl, rfl⟩
 
 end Platypus.C17
